@@ -20,11 +20,14 @@ class MergeModel:
         self.W = None  # local of the data output writer
         if len(cps) == 1:
             o = arg_origin(b, cps[0][1], 5)
-            if o[0] == "var":
-                self.W = o[1]
+            self.W = self.slot_of(o)
             self.entry_var = None
             eo = arg_origin(b, cps[0][1], 2)
             pe = eo
+            # `copy(path, entry.fileid, …)` or, after `let KeyDirEntry { fileid, .. } = *entry;`, a
+            # local that was copied out of the entry's field
+            while pe[0] == "var" and pe[3] is not None and pe[3][0] in ("field", "var"):
+                pe = pe[3]
             while pe[0] == "field":
                 pe = pe[1]
             if pe[0] == "var":
@@ -36,9 +39,9 @@ class MergeModel:
         self.H = None
         for _, bb, t in calls_in([b], "storage::bitcask::log::LogWriter::append"):
             o = arg_origin(b, t, 0)
-            if o[0] == "var":
+            if self.slot_of(o) is not None:
                 self.hint_apps.append((bb, t))
-                self.H = o[1]
+                self.H = self.slot_of(o)
         # assignments to W / H (whole local), and the files they are created on — seen through
         # crate-local helpers (interprocedural origins)
         self.W_assign = self._assign_blocks(self.W)
@@ -47,9 +50,17 @@ class MergeModel:
         self.W_origins = []
         memo = {}
         for which, assigns in (("W", self.W_assign), ("H", self.H_assign)):
+            slot = self.W if which == "W" else self.H
             for bi, si in sorted(assigns, key=lambda x: (x[0], str(x[1]))):
                 o = b.origin_call(bi) if si == "T" else b.origin_rvalue(b.blocks[bi]["stmts"][si]["rv"])
                 o = expand(prog, o, memo)
+                if isinstance(slot, tuple):
+                    # the writer is a field of a local struct: a whole assignment of the struct sets it to that field
+                    st_pl = b.blocks[bi]["term"]["dest"] if si == "T" else b.blocks[bi]["stmts"][si]["pl"]
+                    if not st_pl["p"]:
+                        po = peel(o)
+                        o = po[4][slot[1]] if po[0] == "agg" and slot[1] in po[4] else ("unknown", "struct assigned as a whole")
+                        o = expand(prog, o, memo)
                 if which == "W":
                     self.W_origins.append((bi, o))
                 for c in origin_mentions(o, lambda x: x[0] == "call" and x[1] == "storage::bitcask::log::create"):
@@ -99,13 +110,47 @@ class MergeModel:
         if self.unlink_loop_next is None:
             self.problems.append("unlink loop (Iterator::next over the selection set) not found")
 
-    def _assign_blocks(self, local):
+    @staticmethod
+    def slot_of(o):
+        """a writer slot: a local variable (its index), or a field of a local struct ((index, field name))"""
+        while o[0] in ("clone", "cast"):
+            o = o[1]
+        if o[0] == "var":
+            return o[1]
+        if o[0] == "field" and o[1][0] == "var":
+            return (o[1][1], o[2])
+        return None
+
+    def slot_local(self, slot):
+        return slot[0] if isinstance(slot, tuple) else slot
+
+    def slot_ty(self, slot):
+        b = self.b
+        if not isinstance(slot, tuple):
+            return b.local_ty(slot)
+        adt = self.prog.adts.get(strip_generics(b.local_ty(slot[0]).split("<")[0])) or {}
+        for v in adt.get("variants", []):
+            for fl in v.get("fields", []):
+                if fl[0] == slot[1]:
+                    return fl[1]
+        return ""
+
+    def mentions_slot(self, o, slot):
+        return bool(origin_mentions(o, lambda x: x[0] in ("var", "field") and self.slot_of(x) == slot))
+
+    def _assign_blocks(self, slot):
         out = set()
-        if local is None:
+        if slot is None:
             return out
-        for bi, si, whole in self.b.defs.get(local, []):
-            if whole and bi in self.b.live_blocks():
+        for bi, si, whole in self.b.defs.get(self.slot_local(slot), []):
+            if bi not in self.b.live_blocks():
+                continue
+            if whole:
                 out.add((bi, si))
+            elif isinstance(slot, tuple):
+                pl = self.b.blocks[bi]["term"]["dest"] if si == "T" else self.b.blocks[bi]["stmts"][si]["pl"]
+                if len(pl["p"]) == 1 and pl["p"][0][0] == "f" and pl["p"][0][2] == slot[1]:
+                    out.add((bi, si))
         return out
 
     def _param_of(self, body, o):
@@ -119,16 +164,16 @@ class MergeModel:
         args = [arg_origin(b, t, i) for i in range(len(t["args"]))]
 
         def is_W(o):
-            return o[0] == "var" and o[1] == self.W
+            return self.W is not None and self.slot_of(o) == self.W
 
         def is_H(o):
-            return o[0] == "var" and o[1] == self.H
+            return self.H is not None and self.slot_of(o) == self.H
 
         if is_call_to(t, "storage::bitcask::log::LogWriter::sync") and args and is_H(args[0]):
             out.add("H")
         if is_call_to(t, "std::fs::File::sync_all", "std::fs::File::sync_data") and args:
             o = args[0]
-            if origin_mentions(o, lambda x: x[0] == "var" and x[1] == self.W):
+            if self.W is not None and self.mentions_slot(o, self.W):
                 out.add("W")
         if is_call_to(t, "std::io::Write::flush") and args and is_W(args[0]):
             out.add("flushW")
@@ -167,8 +212,8 @@ class MergeModel:
         b = self.b
         if self.W is None:
             return False, "data output writer not identified"
-        if "std::io::BufWriter<std::fs::File>" not in b.local_ty(self.W):
-            return False, "data output writer is %s, not BufWriter<File>" % b.local_ty(self.W)
+        if "std::io::BufWriter<std::fs::File>" not in self.slot_ty(self.W):
+            return False, "data output writer is %s, not BufWriter<File>" % self.slot_ty(self.W)
         for bi, o in self.W_origins:
             pk = peel(o)
             if not (pk[0] == "call" and pk[1] == "std::io::BufWriter::new"):
@@ -308,7 +353,7 @@ def p4_merge_per_entry_order(ctx):
     r.add(f, "all of fileid/len/pos are re-pointed", must <= set(by), where(b, cbb), "written: %s" % sorted(by))
     # copy reads the entry's current location
     for i, fld in ((2, "fileid"), (3, "len"), (4, "pos")):
-        o = arg_origin(b, ct, i)
+        o = peel_var(arg_origin(b, ct, i))
         good = o[0] == "field" and o[2] == fld
         r.add(f, "copy source %s = entry.%s" % (fld, fld), good, where(b, cbb), origin_str(o))
     # hint record mirrors the entry
@@ -461,12 +506,12 @@ def p5_merge_outputs_before_unlink(ctx):
     for bb, t in m.unlinks:
         o = peel(arg_origin(b, t, 0))
         if o[0] == "call" and o[1]:
-            kinds[bb] = (o[1].split("::")[-1], access_path(o[2][1]) if len(o[2]) > 1 else None)
+            kinds[bb] = (o[1].split("::")[-1], (access_path(o[2][1]) or origin_str(peel(o[2][1]))) if len(o[2]) > 1 else None)
     req = []
     for bb, (k, idp) in sorted(kinds.items()):
         req.append((bb, "unlink(%s)" % k, idp))
     for bb, t in m.stats_removes:
-        req.append((bb, "stats.remove", access_path(arg_origin(b, t, 1))))
+        req.append((bb, "stats.remove", access_path(arg_origin(b, t, 1)) or origin_str(peel(arg_origin(b, t, 1)))))
     want = {"unlink(hintfile_name)", "unlink(datafile_name)", "stats.remove"}
     have = {w for bb, w, idp in req}
     r.add(f, "unlink loop removes accounting, hint file and data file", want <= have, where(b, nb), "found %s" % sorted(have))
